@@ -106,22 +106,38 @@ func runFree(c *Case, e *evalCtx) *freeResult {
 		}
 		return n
 	}
+	// watchdogs are progress based (the machine may be loaded, the race detector slows gzip a lot):
+	// a wait fails only when nothing at all was handed over for `watchdog`
+	stalled := func(cond func() bool) bool {
+		last, lastAt := handedCount(), time.Now()
+		for !cond() {
+			time.Sleep(time.Millisecond)
+			if n := handedCount(); n != last {
+				last, lastAt = n, time.Now()
+			} else if time.Since(lastAt) > watchdog {
+				return true
+			}
+		}
+		return false
+	}
 	if !f.StopEarly {
 		// the idle timeout must flush the last batch without any further input
-		deadline := time.Now().Add(watchdog)
-		for handedCount() < total && time.Now().Before(deadline) {
-			time.Sleep(time.Millisecond)
-		}
-		if handedCount() < total {
-			e.prop("run:idle-flush-missed", "%d of %d records still not handed over %v after the last record (waiting time in force %d ms)",
+		if stalled(func() bool { return handedCount() >= total }) {
+			e.prop("run:idle-flush-missed", "%d of %d records still not handed over, and nothing was handed over for %v (waiting time in force %d ms)",
 				total-handedCount(), total, watchdog, st.MaxWait)
 		}
 	}
 	snd.StopForVerif()
-	select {
-	case <-done:
-	case <-time.After(watchdog):
-		e.prop("stop:loop-does-not-return", "the background loop did not return within %v of cancellation", watchdog)
+	isDone := func() bool {
+		select {
+		case <-done:
+			return true
+		default:
+			return false
+		}
+	}
+	if stalled(isDone) {
+		e.prop("stop:loop-does-not-return", "the background loop did not return after cancellation (no pack handed over for %v)", watchdog)
 		res.finds = e.finds
 		return res
 	}
